@@ -110,18 +110,46 @@ impl SRule
 
     pub fn render(&self) -> String
     {
+        self.render_style(false)
+    }
+
+    /* `bundled`: paths that share a first directory component are written as a tab-indented
+       bundle ("out" / "\ta" / "\tb"), the other documented way to list paths */
+    pub fn render_style(&self, bundled : bool) -> String
+    {
+        fn section(paths : &[String], bundled : bool, s : &mut String)
+        {
+            let mut done : Vec<&String> = vec![];
+            for p in paths.iter()
+            {
+                if done.contains(&p) { continue; }
+                match (bundled, p.find('/'))
+                {
+                    (true, Some(i)) =>
+                    {
+                        let dir = &p[..i];
+                        s.push_str(dir);
+                        s.push('\n');
+                        for q in paths.iter()
+                        {
+                            if q.starts_with(&format!("{}/", dir)) && !q[i + 1..].contains('/')
+                            {
+                                s.push('\t');
+                                s.push_str(&q[i + 1..]);
+                                s.push('\n');
+                                done.push(q);
+                            }
+                        }
+                        if !done.contains(&p) { s.push_str(p); s.push('\n'); done.push(p); }
+                    },
+                    _ => { s.push_str(p); s.push('\n'); done.push(p); },
+                }
+            }
+        }
         let mut s = String::new();
-        for t in self.targets.iter()
-        {
-            s.push_str(t);
-            s.push('\n');
-        }
+        section(&self.targets, bundled, &mut s);
         s.push_str(":\n");
-        for t in self.sources.iter()
-        {
-            s.push_str(t);
-            s.push('\n');
-        }
+        section(&self.sources, bundled, &mut s);
         s.push_str(":\n");
         for t in self.command_lines().iter()
         {
@@ -143,6 +171,11 @@ impl SRule
 
 pub fn render_rules(rules : &[SRule]) -> String
 {
+    render_rules_style(rules, false)
+}
+
+pub fn render_rules_style(rules : &[SRule], bundled : bool) -> String
+{
     let mut s = String::new();
     for (i, r) in rules.iter().enumerate()
     {
@@ -150,7 +183,7 @@ pub fn render_rules(rules : &[SRule]) -> String
         {
             s.push('\n');
         }
-        s.push_str(&r.render());
+        s.push_str(&r.render_style(bundled));
     }
     s
 }
@@ -269,9 +302,13 @@ pub const RULER_DIR : &str = ".ruler";
 
 impl Case
 {
+    /* `rule_files` packs two formatting choices: units = number of rules files (1 or 2),
+       tens = 1 when paths are written as directory bundles */
+    pub fn bundled(&self) -> bool { self.rule_files / 10 == 1 }
+
     pub fn rulefile_paths(&self) -> Vec<String>
     {
-        if self.rule_files >= 2 { vec!["build.rules".to_string(), "more.rules".to_string()] }
+        if self.rule_files % 10 >= 2 { vec!["build.rules".to_string(), "more.rules".to_string()] }
         else { vec!["build.rules".to_string()] }
     }
 
@@ -287,12 +324,13 @@ impl Case
 }
 
 /* Split a rule list over n files (ruler concatenates them). */
-pub fn split_rules(rules : &[SRule], n : u8) -> Vec<String>
+pub fn split_rules(rules : &[SRule], packed : u8) -> Vec<String>
 {
-    if n <= 1
+    let bundled = packed / 10 == 1;
+    if packed % 10 <= 1
     {
-        return vec![render_rules(rules)];
+        return vec![render_rules_style(rules, bundled)];
     }
     let mid = (rules.len() + 1) / 2;
-    vec![render_rules(&rules[..mid]), render_rules(&rules[mid..])]
+    vec![render_rules_style(&rules[..mid], bundled), render_rules_style(&rules[mid..], bundled)]
 }
